@@ -1422,23 +1422,7 @@ def c10(tier):
         for s in (("P", "d"), ("P", "usa"), ("D", "p")):
             drivers = [dict(name=f"H{i + 1}", kind="handle", host=hosts[i], ops=list(s)) for i in range(3)]
             tasks.append(f_task(f"c10-3x-{''.join(s)}", "cluster", drivers, "C10", (3, 0)))
-        # promotion through deserialize without the job status (deserialize_jobs=False)
-        for s1 in (("Pn",), ("Pn", "d"), ("Pn", "p"), ("Pn", "m")):
-            for s2 in seqs + [("Pn",), ("Pn", "d")]:
-                for h2 in ("h2", "h1"):
-                    drivers = [dict(name="H1", kind="handle", host="h1", ops=list(s1)),
-                               dict(name="H2", kind="handle", host=h2, ops=list(s2))]
-                    tasks.append(f_task(f"c10-{''.join(s1)}|{''.join(s2)}@{h2}-nojobs", "cluster", drivers, "C10", (99, 0)))
-        # a handle that has already written once and then holds a copy made stale by the other handle
-        writers = ("usa", "uca", "h")
-        for first in ("D", "P"):
-            for w1 in writers:
-                for w2 in writers:
-                    for w3 in writers:
-                        drivers = [dict(name="H1", kind="handle", host="h1", ops=[first, w1, w2]),
-                                   dict(name="H2", kind="handle", host="h2", ops=["D", w3])]
-                        tasks.append(f_task(f"c10-{first}{w1}{w2}|D{w3}-own-write-then-stale", "cluster", drivers, "C10", (99, 0)))
-        bounds = "2 handles (hosts h1/h2 and h1/h1) x every pair of sequences of length <=2 over {D,P,p,d,us,uc,m,h} starting with a deserialize, all interleavings; a handle with two job-status writes against a handle with one (54 pairs, all interleavings); promotion through deserialize without the job status (Pn) followed by demote/promote/mark-complete against every length-<=2 sequence; 3 handles x length 1 all interleavings, 3 sequences of length 2 at budget 3"
+        bounds = "2 handles (hosts h1/h2 and h1/h1) x every pair of sequences of length <=2 over {D,P,p,d,us,uc,m,h} starting with a deserialize, all interleavings; 3 handles x length 1 all interleavings, 3 sequences of length 2 at budget 3"
     else:
         seqs = c10_sequences(C10_FULL, 2)
         for i, s1 in enumerate(seqs):
@@ -1460,6 +1444,22 @@ def c10(tier):
                     drivers = [dict(name=f"H{i + 1}", kind="handle", host=hosts[i], ops=list(s)) for i, s in enumerate((s1, s2, s3))]
                     tasks.append(f_task(f"c10-3x-{''.join(s1)}|{''.join(s2)}|{''.join(s3)}", "cluster", drivers, "C10", (3, 0)))
         bounds = "2 handles x every pair of sequences of length <=2 over the full alphabet {D,P,p,d,us(a|c),uc(a|c),m,h,g}, all interleavings; length 3 over the core alphabet (every 7th partner) at budget 3; 3 handles x length <=2 (subsample of partners, stated strides) at budget 3"
+    # promotion through deserialize without the job status (deserialize_jobs=False)
+    for s1 in (("Pn",), ("Pn", "d"), ("Pn", "p"), ("Pn", "m")):
+        for s2 in seqs + [("Pn",), ("Pn", "d")]:
+            for h2 in ("h2", "h1"):
+                drivers = [dict(name="H1", kind="handle", host="h1", ops=list(s1)),
+                           dict(name="H2", kind="handle", host=h2, ops=list(s2))]
+                tasks.append(f_task(f"c10-{''.join(s1)}|{''.join(s2)}@{h2}-nojobs", "cluster", drivers, "C10", (99, 0)))
+    # a handle that has already written once and then holds a copy made stale by the other handle
+    writers = ("usa", "uca", "h")
+    for first in ("D", "P"):
+        for w1 in writers:
+            for w2 in writers:
+                for w3 in writers:
+                    drivers = [dict(name="H1", kind="handle", host="h1", ops=[first, w1, w2]),
+                               dict(name="H2", kind="handle", host="h2", ops=["D", w3])]
+                    tasks.append(f_task(f"c10-{first}{w1}{w2}|D{w3}-own-write-then-stale", "cluster", drivers, "C10", (99, 0)))
     # a handle killed at any point of its critical section (the state is then judged against the JSON files);
     # same host + break_stale, because only then can the survivor ever take the dead handle's lock
     kseqs = [("D", "usa"), ("P", "d"), ("D", "m"), ("P", "usa"), ("D", "h")]
@@ -1470,6 +1470,7 @@ def c10(tier):
             t["scen"]["lockmode"] = "break_stale"
             t["fault"] = dict(plan="kill_any", victims=["H1"])
             tasks.append(t)
+    bounds += "; a handle with two job-status writes against a handle with one (54 pairs, all interleavings); promotion through deserialize without the job status (Pn) followed by demote/promote/mark-complete against every length-<=2 sequence"
     bounds += "; 25 pairs of length-2 sequences on one host with the first handle killed at any sync point (lock behaviour break_stale)"
     # system-level half: the CLI commands' use of the role (try-submit-jobs shortcuts, user commands on the
     # submitter's own host, rounds that overlap)
